@@ -30,7 +30,7 @@ func c02(c *Ctx) {
 	fns["computeHamiltonDeltas"] = c.Fn(quotaCorePkg, "", "computeHamiltonDeltas")
 
 	// ---- TYPE + EFFECT over the call tree
-	r.Rule("TYPE/EFFECT: no SSA value of floating-point type and no call outside {math/bits, sort, builtins, package core helpers in the tree} in redistribution, iterationForRedistribution, computeHamiltonDeltas and their in-package callees (closures included); no access to package-level variables")
+	r.Rule("TYPE/EFFECT: no plain integer product of two run-time values (only bits.Mul64, or a product dominated by LeadingZeros64(x)+LeadingZeros64(y) >= 64 on its own operands), no SSA value of floating-point type and no call outside {math/bits, sort, builtins, package core helpers in the tree} in redistribution, iterationForRedistribution, computeHamiltonDeltas and their in-package callees (closures included); no access to package-level variables")
 	seen := map[*ssa.Function]bool{}
 	var tree []*ssa.Function
 	var walk func(f *ssa.Function)
@@ -53,9 +53,16 @@ func c02(c *Ctx) {
 		walk(f)
 	}
 	for _, f := range tree {
-		var floats, foreign, globals []string
+		var floats, foreign, globals, products []string
 		for _, b := range f.Blocks {
 			for _, in := range b.Instrs {
+				if bo, ok := in.(*ssa.BinOp); ok && bo.Op == token.MUL {
+					_, cx := bo.X.(*ssa.Const)
+					_, cy := bo.Y.(*ssa.Const)
+					if bt, isB := bo.Type().Underlying().(*types.Basic); isB && bt.Info()&types.IsInteger != 0 && !cx && !cy && !fitsGuard(bo) {
+						products = append(products, c.InstrPos(in))
+					}
+				}
 				if v, ok := in.(ssa.Value); ok {
 					if bt, ok := v.Type().Underlying().(*types.Basic); ok && bt.Info()&types.IsFloat != 0 {
 						floats = append(floats, c.InstrPos(in))
@@ -83,6 +90,7 @@ func c02(c *Ctx) {
 			}
 		}
 		r.Check(len(floats) == 0, "TYPE", fkey(f)+"/integers-only", c.Pos(f.Pos()), "no floating-point value", "floating-point values appear at "+strings.Join(floats, ",")+": the split is no longer exact for 64-bit-scale values")
+		r.Check(len(products) == 0, "TYPE", fkey(f)+"/no-plain-64-bit-product", c.Pos(f.Pos()), "products of two run-time values go through bits.Mul64", "a plain integer product of two run-time values is formed at "+strings.Join(products, ",")+" without a dominating test LeadingZeros64(x)+LeadingZeros64(y) >= 64 on its own two operands: weight x total exceeds 64 bits for memory-scale values (the 128-bit bits.Mul64/Div64 pair exists for that reason)")
 		r.Check(len(foreign) == 0 && len(globals) == 0, "EFFECT", fkey(f)+"/pure", c.Pos(f.Pos()), "only bits/sort/builtins/in-package helpers, no globals", "the division consults something outside its inputs: calls "+strings.Join(foreign, ",")+" globals "+strings.Join(globals, ","))
 	}
 	r.Floor("TYPE", "functions in the division call tree", len(tree), 3)
@@ -244,10 +252,59 @@ func c02(c *Ctx) {
 			phi, isPhi := tot.(*ssa.Phi)
 			fromRuntime := false
 			if isPhi {
-				for _, e := range phi.Edges {
-					if strings.Contains(an.Path(e), ".Runtime") {
-						fromRuntime = true
+				// every value that comes round the loop must be the level's runtime: a merge that lets the old total
+				// through on some path (re-definition under a condition) is not a re-definition in every iteration
+				fromRuntime = true
+				nBack := 0
+				rootSkip := func(pred, blk *ssa.BasicBlock) bool {
+					gs := an.BlockGuards(pred)
+					if pi, ok := pred.Instrs[len(pred.Instrs)-1].(*ssa.If); ok && len(pred.Succs) == 2 && pred.Succs[0] != pred.Succs[1] {
+						pc, neg := an.StripNot(pi.Cond)
+						t := pred.Succs[0] == blk
+						if neg {
+							t = !t
+						}
+						gs = append(gs, an.Guard{Cond: pc, Truth: t, If: pi})
 					}
+					for _, g := range gs {
+						if rel, ok := an.RelOf(g); ok && rel.Op == token.EQL && strings.Contains(an.Path(rel.Y), "koordinator-root-quota") {
+							return true
+						}
+					}
+					return false
+				}
+				var leaves func(v ssa.Value, pred, blk *ssa.BasicBlock, seen map[ssa.Value]bool) bool
+				leaves = func(v ssa.Value, pred, blk *ssa.BasicBlock, seen map[ssa.Value]bool) bool {
+					if v == ssa.Value(phi) {
+						// carried over unchanged: only the root level (whose total is the cluster total) may do that
+						return rootSkip(pred, blk)
+					}
+					if seen[v] {
+						return true
+					}
+					seen[v] = true
+					if p2, ok := v.(*ssa.Phi); ok {
+						for k2, e := range p2.Edges {
+							if !leaves(e, p2.Block().Preds[k2], p2.Block(), seen) {
+								return false
+							}
+						}
+						return true
+					}
+					return strings.Contains(an.Path(v), ".Runtime")
+				}
+				for k, e := range phi.Edges {
+					pred := phi.Block().Preds[k]
+					if !(phi.Block() == pred || phi.Block().Dominates(pred)) {
+						continue // loop entry
+					}
+					nBack++
+					if !leaves(e, pred, phi.Block(), map[ssa.Value]bool{}) {
+						fromRuntime = false
+					}
+				}
+				if nBack == 0 {
+					fromRuntime = false
 				}
 			}
 			r.Check(isPhi && fromRuntime, "FLOW", fkey(f)+"/level-total", c.InstrPos(scaled), "min scaling sees the parent's runtime of each level", "the total handed to the min scaling is "+an.Path(tot)+", not the level's own runtime carried down the loop: below the first level the minimums are scaled against the cluster total and children can be handed more than their parent owns")
@@ -369,6 +426,44 @@ func c02scale(c *Ctx) {
 		r.Check(len(bad) == 0, "KEY-ROLE", fkey(fn)+"/keys", c.Pos(fn.Pos()), "sum maps keyed by the parent, records keyed by the quota", "wrong key role: "+strings.Join(bad, "; ")+" (expected "+strs[0].Name()+" for the per-parent sums and "+strs[1].Name()+" for the per-quota records)")
 	}
 	r.Floor("KEY-ROLE", "keyed accesses in ScaleMinQuotaManager", n, 20)
+
+	r.Rule("EXACT-CMP(deficit test): in getScaledMinQuota a dimension is put on the need-scale list under a test made with Quantity.Cmp (exact), not under a comparison of two rounded readings (Value() rounds a milli-CPU total up to whole cores, which hides a deficit smaller than one core)")
+	if fn := c.Fn(quotaCorePkg, "ScaleMinQuotaManager", "getScaledMinQuota"); fn != nil {
+		rounded := func(v ssa.Value) bool {
+			for x := range backwardAll(v) {
+				if call, ok := x.(*ssa.Call); ok {
+					switch an.CalleeName(&call.Call) {
+					case "(*k8s.io/apimachinery/pkg/api/resource.Quantity).Value", "(*k8s.io/apimachinery/pkg/api/resource.Quantity).MilliValue", "(*k8s.io/apimachinery/pkg/api/resource.Quantity).ScaledValue":
+						return true
+					}
+				}
+			}
+			return false
+		}
+		na := 0
+		for _, cl := range an.Calls(fn, false) {
+			call, ok := cl.(*ssa.Call)
+			if !ok || !an.IsBuiltinCall(call, "append") || !strings.HasSuffix(call.Type().String(), "ResourceName") {
+				continue
+			}
+			na++
+			exact, lossy := false, false
+			for _, g := range an.Guards(call) {
+				rel, isRel := an.RelOf(g)
+				if !isRel {
+					continue
+				}
+				if c2, _ := an.ResultOfCall(rel.X); c2 != nil && an.ShortCallee(&c2.Call) == "Cmp" {
+					exact = true
+				}
+				if rounded(rel.X) && rounded(rel.Y) {
+					lossy = true
+				}
+			}
+			r.Check(exact && !lossy, "EXACT-CMP", fkey(fn)+"/deficit-test", c.InstrPos(call), "the deficit test uses Quantity.Cmp", sprintf("the deficit test is not an exact Quantity.Cmp (Cmp-based: %v, compares two rounded readings: %v): a CPU total of 99500m against minimums summing to 100 cores reads as 100 >= 100 and the minimums are not scaled", exact, lossy))
+		}
+		r.Floor("EXACT-CMP", "need-scale insertions", na, 1)
+	}
 }
 
 // mapField returns the address of the field a map value was loaded from (or the value itself).
@@ -377,4 +472,51 @@ func mapField(m ssa.Value) ssa.Value {
 		return u.X
 	}
 	return m
+}
+
+// fitsGuard: the product x*y is dominated by "LeadingZeros64(x) + LeadingZeros64(y) >= 64" (or > 63) on its own operands,
+// which is exactly the condition for the product to fit into 64 bits.
+func fitsGuard(prod *ssa.BinOp) bool {
+	strip := func(v ssa.Value) ssa.Value {
+		for {
+			switch x := v.(type) {
+			case *ssa.Convert:
+				v = x.X
+			case *ssa.ChangeType:
+				v = x.X
+			default:
+				return v
+			}
+		}
+	}
+	px, py := strip(prod.X), strip(prod.Y)
+	lzArg := func(v ssa.Value) ssa.Value {
+		call, ok := strip(v).(*ssa.Call)
+		if !ok || an.CalleeName(&call.Call) != "math/bits.LeadingZeros64" {
+			return nil
+		}
+		return strip(call.Call.Args[0])
+	}
+	for _, g := range an.Guards(prod) {
+		rel, ok := an.RelOf(g)
+		if !ok {
+			continue
+		}
+		sum, isSum := rel.X.(*ssa.BinOp)
+		k, isC := constIntOf(rel.Y)
+		if !isSum || sum.Op != token.ADD || !isC {
+			continue
+		}
+		if !((rel.Op == token.GEQ && k >= 64) || (rel.Op == token.GTR && k >= 63)) {
+			continue
+		}
+		a, b := lzArg(sum.X), lzArg(sum.Y)
+		if a == nil || b == nil {
+			continue
+		}
+		if (a == px && b == py) || (a == py && b == px) {
+			return true
+		}
+	}
+	return false
 }
